@@ -1,5 +1,5 @@
 (* C05 — Senders are charged exactly gas used x effective price, in every outcome. *)
-From Evm Require Import TxPipe TxPipeProofs.
+From Evm Require Import TxPipe TxPipeExt TxPipeProofs TxPipeDenom TxPipeDenomProofs.
 Open Scope Z_scope.
 
 (* committed execution (success or VM error): sender pays gas used (as in the receipt) x effective price,
@@ -88,4 +88,58 @@ Example C05_example_failed :
   let o := mkOut 0 false 0 [] 0 false in
   r_out (snd (deliver s t o)) = CoreErr /\ bal (fst (deliver s t o)) 7 = 10^18 - 20999 * 1003 /\
   sqn (fst (deliver s t o)) 7 = 1.
+Proof. vm_compute. repeat split; reflexivity. Qed.
+
+(* ------------------------------------------------------------------ executions aborted by a panic (Model/TxPipeExt.v)
+   A failure outside EVM execution, after admission: the fee for the whole gas limit is kept, no value moves.  There is no
+   receipt; the gas the later receipts of the block count for it is the whole gas limit (C05_x_cumulative_is_running_sum,
+   gas_shown), which is what the sender paid for.  The CONSENSUS result's gas used is whatever the gas meter held when the
+   panic was raised ([gu], observed: neither of ApplyTransaction's two meter resets ran). *)
+Theorem C05_charge_exact_aborted : forall s t gu a,
+  t_from t <> FEE_COLLECTOR ->
+  bal (fst (deliver_panic s t gu)) a =
+    bal s a + (if passed (r_out (snd (deliver_panic s t gu))) && (a =? t_from t) then - (t_gas t * price_of s t) else 0)
+            + (if passed (r_out (snd (deliver_panic s t gu))) && (a =? FEE_COLLECTOR) then t_gas t * price_of s t else 0).
+Proof. exact panic_charge. Qed.
+Print Assumptions C05_charge_exact_aborted.
+
+(* reached: the state is the ante handler's with the block gas meter advanced by the observed figure; the consensus result
+   shows gas wanted = gas limit, gas used = that figure, the next Ethereum index, no receipt *)
+Theorem C05_aborted_result : forall s t gu, panic_reached s t = true ->
+  blk_out_of_gas s = false /\ admitted s t /\
+  deliver_panic s t gu = (set_blk_used (ante_effects s t) (blk_used s + gu), no_receipt CoreErr (t_gas t) gu (tx_count s)).
+Proof. exact panic_reached_result. Qed.
+Print Assumptions C05_aborted_result.
+
+(* not reached (block gas exhausted, rejected at admission, gas limit below the intrinsic gas, unaffordable value): the
+   transaction ends exactly as C05_charge_exact_failed / C05_rejected_free say *)
+Theorem C05_aborted_not_reached : forall s t gu,
+  panic_reached s t = false -> deliver_panic s t gu = deliver s t no_exec.
+Proof. exact panic_not_reached. Qed.
+Print Assumptions C05_aborted_not_reached.
+
+Theorem C05_aborted_rejected_free : forall s t gu,
+  passed (r_out (snd (deliver_panic s t gu))) = false -> fst (deliver_panic s t gu) = s.
+Proof. exact panic_rejected_changes_nothing. Qed.
+Print Assumptions C05_aborted_rejected_free.
+
+(* cumulative gas is the running sum in every block that contains aborted executions as well: each of them counts with
+   its gas limit *)
+Theorem C05_x_cumulative_is_running_sum : forall s l pre x post,
+  tx_count (d_core s) = 0 -> cum_gas (d_core s) = 0 -> log_count (d_core s) = 0 ->
+  xtrace s l = pre ++ x :: post ->
+  let '(_, _, o, r) := x in
+  let '(n, g, lg) := shown_before pre in
+  (passed (r_out r) = true -> r_tx_index r = n) /\
+  (forall v, r_out r = Executed v -> r_cum_gas r = g + gas_shown r /\ r_log_start r = lg).
+Proof. exact x_block_numbering. Qed.
+Print Assumptions C05_x_cumulative_is_running_sum.
+
+Example C05_example_aborted :
+  let s := mkSt (fun a => if a =? 7 then 10^18 else 0) (fun _ => 0) (fun a => a =? 7) (fun _ => false)
+                (5 * 10^18) 1000 0 0 0 0 0 0 false false in
+  let t := mkTx 7 (Some 7) true true 0 3 5000 40000 0 5 false 21000 in
+  panic_reached s t = true /\ bal (fst (deliver_panic s t 0)) 7 = 10^18 - 40000 * 1003 /\
+  r_gas_wanted (snd (deliver_panic s t 0)) = 40000 /\ r_gas_used (snd (deliver_panic s t 0)) = 0 /\
+  gas_shown (snd (deliver_panic s t 0)) = 40000.
 Proof. vm_compute. repeat split; reflexivity. Qed.
